@@ -4,6 +4,7 @@
 // Oracle = the two REAL paths agree (numerical policy of DESIGN 2.9).
 #include "vf/c0405_menu.hpp"
 #include "vf/bfs.hpp"
+#include "vf/fork.hpp"
 
 #include "Covariances/ACovAnisoList.hpp"
 #include "Covariances/CovAniso.hpp"
@@ -12,8 +13,10 @@
 #include "Estimation/CalcKriging.hpp"
 #include "Neigh/NeighMoving.hpp"
 #include "Calculators/CalcMigrate.hpp"
+#include "Estimation/KrigingCalcul.hpp"
 #include "Neigh/NeighUnique.hpp"
 
+#include <Eigen/Dense>
 using namespace vf;
 using namespace vfm;
 
@@ -664,7 +667,9 @@ VF_PART(p4_neigh_ball)
       std::sort(va.begin(), va.end()); std::sort(vb.begin(), vb.end());
       bool same = va == vb;
       C.outcome(std::string(same ? "same-neighbours" : "DIFFERENT-neighbours") + (nmaxi < n ? ":truncating" : ":all-samples"));
-      if (nmaxi < n) C.nontrivial(Hash().u(id).i(it).h);
+      bool ballEffective = ball->_useBallSearch && !ball->getFlagSector() && !ball->getFlagAniso();
+      C.outcome(ballEffective ? "ball-branch:taken" : "ball-branch:disabled-by-the-library(anisotropy coefficients given)");
+      if (nmaxi < n && ballEffective) C.nontrivial(Hash().u(id).i(it).h);
       // mechanism seen on the unchanged tree: without coefficients BiTargetCheckDistance works in 2 dimensions whatever the space
       bool plain2d = false;
       if (!same && ndim == 3 && coeffs.empty())
@@ -766,6 +771,653 @@ VF_PART(p5_block_ndisc1)
       C.violation(key, "point kriging vs block kriging with ndisc=1: " + d + " ; data=" + raw_str(r) + " model=" + model_name(nvar, im) + " " + MEAN_NAME[kmean] + " neigh=" + std::to_string(kn) + " grid=" + std::to_string(idx[7]), kase);
     }
   });
+}
+
+// =====================================================================================================
+// Part 7: KrigingCalcul (primal, dual, Bayes, collocated-unique, xvalid-unique forms)  vs  the standard kriging system
+//         Sigma, X, Sigma0, X0, Sigma00, Z are obtained from the Model/Db through public calls, as test_Schur does.
+// =====================================================================================================
+namespace p7
+{
+using namespace kk;
+struct Sys
+{
+  MatrixSquareSymmetric Sigma, Sigma00;
+  MatrixRectangular X, Sigma0, X0;
+  VectorDouble Z, means;
+  bool hasDrift = false;
+};
+static MatrixSquareSymmetric toSym(const MatrixRectangular& m)
+{
+  MatrixSquareSymmetric s(m.getNRows());
+  for (int i = 0; i < m.getNRows(); i++) for (int j = 0; j <= i; j++) s.setValue(i, j, m.getValue(i, j));
+  return s;
+}
+// system of `din` for the single target Db `dtar` (1 sample, no variable)
+static void build(Sys& S, Model* m, Db* din, Db* dtar, const VectorInt& nbghTarget = VectorInt())
+{
+  int nvar = m->getVariableNumber();
+  S.means.resize(nvar);
+  S.hasDrift = m->getDriftNumber() > 0;
+  for (int iv = 0; iv < nvar; iv++) S.means[iv] = S.hasDrift ? 0. : m->getMean(iv);
+  S.Sigma = m->evalCovMatrixSymmetric(din);
+  S.Sigma0 = m->evalCovMatrix(din, dtar, -1, -1, VectorInt(), nbghTarget);
+  // C(0) between the variables: the target against itself (a target Db has no variable: every sample is kept)
+  S.Sigma00 = toSym(m->evalCovMatrix(dtar, dtar, -1, -1, nbghTarget, nbghTarget));
+  if (S.hasDrift) { S.X = m->evalDriftMatrix(din); S.X0 = m->evalDriftMatrix(dtar, -1, nbghTarget); }
+  S.Z = din->getMultipleValuesActive(VectorInt(), VectorInt(), S.means);
+}
+static void feed(KrigingCalcul& K, Sys& S, bool withRHS = true)
+{
+  K.setData(&S.Z, &S.means);
+  K.setLHS(&S.Sigma, S.hasDrift ? &S.X : nullptr);
+  if (withRHS) K.setRHS(&S.Sigma0, S.hasDrift ? &S.X0 : nullptr);
+  K.setVar(&S.Sigma00);
+}
+struct Res { VD est, std, varz; };
+static Res fromCalc(KrigingCalcul& K, bool varz = true)
+{
+  Res r;
+  VectorDouble e = K.getEstimation(), s = K.getStdv(), v = varz ? K.getVarianceZstar() : VectorDouble();
+  r.est.assign(e.begin(), e.end()); r.std.assign(s.begin(), s.end()); r.varz.assign(v.begin(), v.end());
+  return r;
+}
+// a/b: "" or description; sets worst. Undefined on one side only is a difference.
+static std::string cmp(const char* what, const VD& a, const VD& b, bool square, double& worst)
+{
+  if (a.size() != b.size()) return std::string(what) + ": " + std::to_string(a.size()) + " value(s) vs " + std::to_string(b.size());
+  for (size_t i = 0; i < a.size(); i++)
+  {
+    bool ua = FFFF(a[i]) || std::isnan(a[i]), ub = FFFF(b[i]) || std::isnan(b[i]);
+    if (ua || ub) { if (ua != ub) return std::string(what) + " of variable " + std::to_string(i + 1) + ": " + fmt(a[i]) + " vs " + fmt(b[i]); continue; }
+    double x = square ? a[i] * a[i] : a[i], y = square ? b[i] * b[i] : b[i];
+    double e = std::fabs(x - y) / std::max({1., std::fabs(x), std::fabs(y)});
+    worst = std::max(worst, e);
+    if (e > 1e-8) return std::string(what) + " of variable " + std::to_string(i + 1) + ": " + fmt(a[i]) + " (KrigingCalcul) vs " + fmt(b[i]) + " (kriging)";
+  }
+  return "";
+}
+
+// third answer (arbitration only): the documented formulas solved with Eigen (full-pivot LU) on the matrices of the Sys
+// prior (pm, pc) optional: Bayesian kriging = simple kriging of Z - X pm with covariance Sigma + X pc X'
+static Res brute(const Sys& S, const VectorDouble* pm = nullptr, const MatrixSquareSymmetric* pc = nullptr)
+{
+  using namespace Eigen;
+  int N = S.Sigma.getNRows(), nv = S.Sigma00.getNRows(), p = S.hasDrift ? S.X.getNCols() : 0;
+  MatrixXd Sg(N, N), s0(N, nv), C00(nv, nv), X(N, p), X0(nv, p);
+  VectorXd Z(N);
+  for (int i = 0; i < N; i++) { Z(i) = S.Z[i]; for (int j = 0; j < N; j++) Sg(i, j) = S.Sigma.getValue(i, j); for (int v = 0; v < nv; v++) s0(i, v) = S.Sigma0.getValue(i, v); for (int k = 0; k < p; k++) X(i, k) = S.X.getValue(i, k); }
+  for (int v = 0; v < nv; v++) { for (int w = 0; w < nv; w++) C00(v, w) = S.Sigma00.getValue(v, w); for (int k = 0; k < p; k++) X0(v, k) = S.X0.getValue(v, k); }
+  Res r;
+  if (pm != nullptr)
+  {
+    MatrixXd P(p, p); VectorXd m(p);
+    for (int k = 0; k < p; k++) { m(k) = (*pm)[k]; for (int l = 0; l < p; l++) P(k, l) = pc->getValue(k, l); }
+    MatrixXd Sb = Sg + X * P * X.transpose(), s0b = s0 + X * P * X0.transpose(), Cb = C00 + X0 * P * X0.transpose();
+    MatrixXd lam = Sb.fullPivLu().solve(s0b);
+    VectorXd e = X0 * m + lam.transpose() * (Z - X * m);
+    MatrixXd var = Cb - s0b.transpose() * lam;
+    for (int v = 0; v < nv; v++) { r.est.push_back(e(v)); r.std.push_back(std::sqrt(std::max(0., var(v, v)))); }
+    return r;
+  }
+  if (p == 0)
+  {
+    MatrixXd lam = Sg.fullPivLu().solve(s0);
+    VectorXd e = lam.transpose() * Z;
+    MatrixXd var = C00 - s0.transpose() * lam;
+    for (int v = 0; v < nv; v++) { r.est.push_back(e(v) + S.means[v]); r.std.push_back(std::sqrt(std::max(0., var(v, v)))); }
+    return r;
+  }
+  MatrixXd A = MatrixXd::Zero(N + p, N + p), B(N + p, nv);
+  A.topLeftCorner(N, N) = Sg; A.topRightCorner(N, p) = X; A.bottomLeftCorner(p, N) = X.transpose();
+  B.topRows(N) = s0; B.bottomRows(p) = X0.transpose();
+  MatrixXd W = A.fullPivLu().solve(B);
+  VectorXd e = W.topRows(N).transpose() * Z;
+  MatrixXd var = C00 - W.transpose() * B;
+  for (int v = 0; v < nv; v++) { r.est.push_back(e(v)); r.std.push_back(std::sqrt(std::max(0., var(v, v)))); }
+  return r;
+}
+// mechanism seen on the unchanged tree: simple kriging with non-zero means, the mean is not added back to the estimate
+static bool meanMissing(const Res& calc, const Res& ref, const VectorDouble& means, const VectorInt* vars = nullptr)
+{
+  if (calc.est.size() != ref.est.size()) return false;
+  bool any = false;
+  for (size_t i = 0; i < calc.est.size(); i++)
+  {
+    double m = means[vars ? (*vars)[i] : (int)i];
+    if (m != 0) any = true;
+    if (FFFF(calc.est[i]) || !close(calc.est[i] + m, ref.est[i], 1e-8, 1.)) return false;
+    if (!calc.std.empty() && !ref.std.empty() && !close(calc.std[i] * calc.std[i], ref.std[i] * ref.std[i], 1e-8, 1.)) return false;
+  }
+  return any;
+}
+static std::string resStr(const Res& r) { return "est=" + vstr(r.est) + " std=" + vstr(r.std); }
+// which side agrees with the third answer (first variable)
+static std::string blame(const Res& calc, const Res& krig, const Res& bf)
+{
+  auto same = [](const Res& a, const Res& b) { return !a.est.empty() && !b.est.empty() && close(a.est[0], b.est[0], 1e-8, 1.) && close(a.std[0] * a.std[0], b.std[0] * b.std[0], 1e-8, 1.); };
+  return same(calc, bf) ? "standard-path-wrong" : same(krig, bf) ? "calcul-wrong" : "both-differ-from-formulas";
+}
+static Db* oneTarget(int ndim, const VVD& t4, int kt)
+{
+  Raw t; t.ndim = ndim; t.nvar = 0; t.n = 1; t.x = VVD(ndim, VD(1));
+  for (int d = 0; d < ndim; d++) t.x[d][0] = t4[d][kt];
+  return raw_to_db(t);
+}
+static Res fromKriging(Db* din, Db* dtar, Model* m, bool varz, int nvar, int* err, const char* prefix = "Kriging")
+{
+  Res r;
+  std::unique_ptr<NeighUnique> nu(NeighUnique::create());
+  *err = kriging(din, dtar, m, nu.get(), EKrigOpt::POINT, true, true, varz);
+  for (int iv = 0; iv < nvar; iv++)
+  {
+    std::string z = std::string(prefix) + ".z" + std::to_string(iv + 1);
+    r.est.push_back(col(dtar, z + ".estim")[0]); r.std.push_back(col(dtar, z + ".stdev")[0]);
+    if (varz) r.varz.push_back(col(dtar, z + ".varz")[0]);
+  }
+  return r;
+}
+}  // namespace p7
+
+VF_PART(p7_krigingcalcul)
+{
+  using namespace p7;
+  bool T = C.thorough();
+  Space sp;
+  sp.axis("ndim", 3).axis("layout", NLAYOUT).axis("n", T ? 3 : 2).axis("model", NMODEL1 + NMODEL2).axis("mean", NMEAN).axis("upat", 3).axis("verr", 2).axis("target", 4);
+  for_each_case(C, sp, [&](uint64_t id, const std::vector<int>& idx) {
+    int ndim = idx[0] + 1, ilay = idx[1], n = T ? 4 + idx[2] : (idx[2] ? 6 : 4);
+    int nvar = idx[3] < NMODEL1 ? 1 : 2, im = idx[3] < NMODEL1 ? idx[3] : idx[3] - NMODEL1, kmean = idx[4], upat = idx[5], kv = idx[6], kt = idx[7];
+    bool intrinsic = nvar == 1 && im == 7;
+    std::string kase = std::to_string(id);
+    if (intrinsic && kmean < 2) { C.skip(); C.outcome("excluded:intrinsic-model-without-drift"); return; }
+    int nfeq = kmean == 2 ? 1 : kmean == 3 ? 1 + ndim : 0;
+    if (n - 2 <= nfeq) { C.skip(); C.outcome("excluded:not-more-data-than-drift-equations"); return; }
+    set_ndim(ndim);
+    Raw r = make_raw(ndim, nvar, ilay, n);
+    if (upat == 1) r.z[0][1] = TEST;
+    if (upat == 2) { r.z[nvar - 1][0] = TEST; r.z[0][2] = TEST; }
+    if (kv) for (int iv = 0; iv < nvar; iv++) r.v.push_back(verr(iv, n));
+    VVD t4 = targets(ndim, ilay, 4);
+    bool varz = !intrinsic && kmean < 2;   // variance of the estimator: stationary, known mean (where both sides define it)
+    std::string what = " ; data=" + raw_str(r) + " target#" + std::to_string(kt) + " model=" + model_name(nvar, im) + " " + MEAN_NAME[kmean];
+    if (id % 20011 == 7) C.sample("{\"id\":" + kase + ",\"data\":" + raw_str(r) + ",\"model\":" + jstr(model_name(nvar, im)) + ",\"mean\":" + jstr(MEAN_NAME[kmean]) + "}");
+
+    // ---------------- standard system
+    DbP din(raw_to_db(r)), dtar(oneTarget(ndim, t4, kt));
+    ModelP m(make_model(ndim, nvar, im)); applyMean(m.get(), kmean, intrinsic);
+    int err = 0;
+    Res ref = fromKriging(din.get(), dtar.get(), m.get(), varz, nvar, &err);
+    if (err || FFFF(ref.est[0]) || std::isnan(ref.est[0])) { C.skip(); C.outcome("excluded:standard-system-refused-or-singular"); return; }
+
+    // ---------------- primal form
+    {
+      DbP d1(raw_to_db(r)), t1(oneTarget(ndim, t4, kt));
+      ModelP m1(make_model(ndim, nvar, im)); applyMean(m1.get(), kmean, intrinsic);
+      Sys S; build(S, m1.get(), d1.get(), t1.get());
+      KrigingCalcul K(false); feed(K, S);
+      Res a = fromCalc(K, varz);
+      C.eval();
+      double worst = 0;
+      std::string d = cmp("estimation", a.est, ref.est, false, worst);
+      if (d.empty()) d = cmp("stdev", a.std, ref.std, true, worst);
+      if (d.empty() && varz) d = cmp("varz", a.varz, ref.varz, false, worst);
+      C.outcome(std::string("primal:") + (S.hasDrift ? "UK:" : "SK:") + (d.empty() ? decade(worst) : "DIFFERENT"));
+      C.nontrivial(Hash().u(id).i(1).h);
+      if (!d.empty())
+      {
+        Res bf = brute(S);
+        std::string key = (!S.hasDrift && meanMissing(a, ref, S.means)) ? "krigingcalcul:sk-mean-not-added:primal" : std::string("krigingcalcul:primal:") + (S.hasDrift ? "UK" : "SK") + ":" + d.substr(0, d.find(' ')) + ":" + blame(a, ref, bf);
+        C.violation(key, "KrigingCalcul (primal) vs kriging: " + d + " ; formulas solved by the harness: " + resStr(bf) + what, kase);
+      }
+      // ---------------- dual form (estimation only)
+      KrigingCalcul KD(true);
+      KD.setData(&S.Z, &S.means); KD.setLHS(&S.Sigma, S.hasDrift ? &S.X : nullptr); KD.setRHS(&S.Sigma0, S.hasDrift ? &S.X0 : nullptr);
+      VectorDouble ed = KD.getEstimation();
+      C.eval();
+      worst = 0;
+      std::string dd = cmp("estimation", VD(ed.begin(), ed.end()), ref.est, false, worst);
+      C.outcome(std::string("dual:") + (S.hasDrift ? "UK:" : "SK:") + (dd.empty() ? decade(worst) : "DIFFERENT"));
+      if (!dd.empty()) C.violation(std::string("krigingcalcul:dual:") + (S.hasDrift ? "UK" : "SK"), "KrigingCalcul (dual) vs kriging: " + dd + what, kase);
+    }
+
+    // ---------------- Bayesian form (needs drift functions): kribayes is the standard path
+    if (kmean >= 2 && !intrinsic)
+    {
+      int nbfl = nfeq * nvar;
+      VectorDouble pm(nbfl); MatrixSquareSymmetric pc(nbfl);
+      for (int k = 0; k < nbfl; k++) { pm[k] = 0.5 - 0.25 * k; pc.setValue(k, k, 0.5 + 0.125 * k); }
+      if (nbfl > 1) pc.setValue(1, 0, 0.125);
+      // kribayes runs in a forked child: on the unchanged tree it writes out of bounds when a sample is undefined / masked
+      int eb = 0;
+      Res rb;
+      ChildResult cr = run_child([&](int wfd) {
+        DbP d0(raw_to_db(r)), t0(oneTarget(ndim, t4, kt));
+        ModelP m0(make_model(ndim, nvar, im)); applyMean(m0.get(), kmean, intrinsic);
+        std::unique_ptr<NeighUnique> nu(NeighUnique::create());
+        int e = kribayes(d0.get(), t0.get(), m0.get(), nu.get(), pm, pc, true, true);
+        std::string o = std::to_string(e);
+        for (int iv = 0; iv < nvar; iv++) { std::string z = "Bayes.z" + std::to_string(iv + 1); o += " " + fmt(col(t0.get(), z + ".estim")[0]) + " " + fmt(col(t0.get(), z + ".stdev")[0]); }
+        child_write(wfd, o);
+        return 0;
+      }, 10.);
+      if (!cr.clean() || cr.code != 0 || cr.data.empty())
+      {
+        C.eval(); C.outcome("bayes:kribayes-" + cr.describe());
+        C.violation(std::string("kribayes:crash:") + (upat ? "undefined-values" : "complete-data"), "kribayes " + cr.describe() + " (standard path of the Bayesian form; KrigingCalcul is not involved)" + what, kase);
+        eb = 1; rb.est = {TEST};
+      }
+      else
+      {
+        std::stringstream ss(cr.data); ss >> eb;
+        for (int iv = 0; iv < nvar; iv++) { double e, sd; ss >> e >> sd; rb.est.push_back(e); rb.std.push_back(sd); }
+      }
+      if (eb || FFFF(rb.est[0]) || std::isnan(rb.est[0])) { C.outcome("bayes:standard-path-refused"); }
+      else
+      {
+        DbP d1(raw_to_db(r)), t1(oneTarget(ndim, t4, kt));
+        ModelP m1(make_model(ndim, nvar, im)); applyMean(m1.get(), kmean, intrinsic);
+        Sys S; build(S, m1.get(), d1.get(), t1.get());
+        KrigingCalcul K(false); feed(K, S); K.setBayes(&pm, &pc);
+        Res a = fromCalc(K, false);
+        C.eval();
+        double worst = 0;
+        std::string d = cmp("estimation", a.est, rb.est, false, worst);
+        if (d.empty()) d = cmp("stdev", a.std, rb.std, true, worst);
+        C.outcome(std::string("bayes:") + (d.empty() ? decade(worst) : "DIFFERENT"));
+        C.nontrivial(Hash().u(id).i(2).h);
+        if (!d.empty())
+        {
+          Res bf = brute(S, &pm, &pc);
+          C.violation("krigingcalcul:bayes:nvar=" + std::to_string(nvar) + ":" + d.substr(0, d.find(' ')) + ":" + blame(a, rb, bf), "KrigingCalcul (Bayes) " + resStr(a) + " vs kribayes " + resStr(rb) + " ; formulas solved by the harness: " + resStr(bf) + " prior mean=" + vstr(pm) + what, kase);
+        }
+      }
+    }
+
+    // ---------------- cross-validation form: sample i0 left out in all its variables, vs kriging of the depleted data onto it
+    if (kv == 0)
+    {
+      int i0 = (kt + 1) % n;
+      DbP d1(raw_to_db(r));
+      bool anydef = false; for (int iv = 0; iv < nvar; iv++) if (!FFFF(r.z[iv][i0])) anydef = true;
+      std::vector<int> keep(n, 1); keep[i0] = 0;
+      Raw rr = reduce_raw(r, keep);
+      int ndefLeft = 0; for (int i = 0; i < rr.n; i++) if (!FFFF(rr.z[0][i])) ndefLeft++;
+      if (anydef && ndefLeft > nfeq)
+      {
+        VectorInt xvars; for (int iv = 0; iv < nvar; iv++) if (!FFFF(r.z[iv][i0])) xvars.push_back(iv);
+        const VectorVectorInt index = d1->getMultipleRanksActive();
+        // position of sample i0 inside each variable's list
+        VectorInt eqs, vars; int lec = 0;
+        for (int iv = 0; iv < nvar; iv++) for (int k = 0; k < (int)index[iv].size(); k++) { if (index[iv][k] == i0) { eqs.push_back(lec); vars.push_back(iv); } lec++; }
+        ModelP m1(make_model(ndim, nvar, im)); applyMean(m1.get(), kmean, intrinsic);
+        Sys S;
+        DbP tdummy(oneTarget(ndim, t4, kt));
+        build(S, m1.get(), d1.get(), tdummy.get());
+        KrigingCalcul K(false); feed(K, S, false); K.setXvalidUnique(&eqs, &vars);
+        Res a = fromCalc(K, false);
+        // standard path: depleted data, target = location of i0
+        DbP dred(raw_to_db(rr));
+        Raw rt; rt.ndim = ndim; rt.nvar = 0; rt.n = 1; rt.x = VVD(ndim, VD(1)); for (int d = 0; d < ndim; d++) rt.x[d][0] = r.x[d][i0];
+        DbP tx(raw_to_db(rt));
+        ModelP m2(make_model(ndim, nvar, im)); applyMean(m2.get(), kmean, intrinsic);
+        int e2 = 0;
+        Res rf = fromKriging(dred.get(), tx.get(), m2.get(), false, nvar, &e2);
+        C.eval();
+        if (e2 || FFFF(rf.est[0]) || std::isnan(rf.est[0])) { C.skip(); C.outcome("xvalid:excluded:depleted-system-singular"); }
+        else
+        {
+          // KrigingCalcul returns one value per cross-validated equation
+          VD re, rs; for (int k = 0; k < (int)vars.size(); k++) { re.push_back(rf.est[vars[k]]); rs.push_back(rf.std[vars[k]]); }
+          double worst = 0;
+          std::string d = cmp("estimation", a.est, re, false, worst);
+          if (d.empty()) d = cmp("stdev", a.std, rs, true, worst);
+          C.outcome(std::string("xvalid:") + (S.hasDrift ? "UK:" : "SK:") + (d.empty() ? decade(worst) : "DIFFERENT"));
+          C.nontrivial(Hash().u(id).i(3).h);
+          if (!d.empty())
+          {
+            Res rr2; rr2.est = re; rr2.std = rs;
+            std::string key = (!S.hasDrift && meanMissing(a, rr2, S.means, &vars)) ? "krigingcalcul:sk-mean-not-added:xvalid" : std::string("krigingcalcul:xvalid:") + (S.hasDrift ? "UK" : "SK") + ":" + d.substr(0, d.find(' '));
+            C.violation(key, "KrigingCalcul (xvalid-unique, sample " + std::to_string(i0) + ") vs kriging of the depleted data: " + d + what, kase);
+          }
+        }
+      }
+      else C.outcome("xvalid:excluded:nothing-to-cross-validate-or-too-few-data");
+    }
+
+    // ---------------- collocated form (2 variables): z2 known at the target, vs kriging of the data completed by that datum
+    if (nvar == 2 && kt != 1)
+    {
+      double zc = 1.75;
+      Raw rc = r;
+      rc.n = n + 1;
+      for (int d = 0; d < ndim; d++) rc.x[d].push_back(t4[d][kt]);
+      rc.z[0].push_back(TEST); rc.z[1].push_back(zc);
+      for (auto& v : rc.v) v.push_back(0.);
+      DbP dc(raw_to_db(rc)), tc(oneTarget(ndim, t4, kt));
+      ModelP mc(make_model(ndim, nvar, im)); applyMean(mc.get(), kmean, intrinsic);
+      int ec = 0;
+      Res rf = fromKriging(dc.get(), tc.get(), mc.get(), false, nvar, &ec);
+      if (ec || FFFF(rf.est[0]) || std::isnan(rf.est[0])) { C.skip(); C.outcome("colcok:excluded:completed-system-singular"); }
+      else
+      {
+        DbP d1(raw_to_db(r)), t1(oneTarget(ndim, t4, kt));
+        ModelP m1(make_model(ndim, nvar, im)); applyMean(m1.get(), kmean, intrinsic);
+        Sys S; build(S, m1.get(), d1.get(), t1.get());
+        VectorDouble Zp = {TEST, zc - S.means[1]};
+        VectorInt rk = {1};
+        KrigingCalcul K(false); feed(K, S); K.setColCokUnique(&Zp, &rk);
+        Res a = fromCalc(K, false);
+        C.eval();
+        double worst = 0;
+        // the collocated variable itself is known at the target: only the other variable is compared
+        std::string d = cmp("estimation", VD({a.est.empty() ? TEST : a.est[0]}), VD({rf.est[0]}), false, worst);
+        if (d.empty()) d = cmp("stdev", VD({a.std.empty() ? TEST : a.std[0]}), VD({rf.std[0]}), true, worst);
+        C.outcome(std::string("colcok:") + (S.hasDrift ? "UK:" : "SK:") + (d.empty() ? decade(worst) : "DIFFERENT"));
+        C.nontrivial(Hash().u(id).i(4).h);
+        if (!d.empty())
+        {
+          DbP dc2(raw_to_db(rc)), tc2(oneTarget(ndim, t4, kt));
+          ModelP mc2(make_model(ndim, nvar, im)); applyMean(mc2.get(), kmean, intrinsic);
+          Sys Sc; build(Sc, mc2.get(), dc2.get(), tc2.get());
+          Res bf = brute(Sc);
+          Res a1; a1.est = {a.est.empty() ? TEST : a.est[0]}; a1.std = {a.std.empty() ? TEST : a.std[0]};
+          Res r1; r1.est = {rf.est[0]}; r1.std = {rf.std[0]};
+          std::string key = (!S.hasDrift && meanMissing(a1, r1, S.means)) ? "krigingcalcul:sk-mean-not-added:colcok" : std::string("krigingcalcul:colcok:") + (S.hasDrift ? "UK" : "SK") + ":" + d.substr(0, d.find(' ')) + ":" + blame(a1, r1, bf);
+          C.violation(key, "KrigingCalcul (collocated, z2=" + fmt(zc) + " at the target) " + resStr(a) + " vs kriging of the completed data " + resStr(rf) + " ; formulas solved by the harness on the completed data: " + resStr(bf) + what, kase);
+        }
+      }
+    }
+  });
+}
+
+// =====================================================================================================
+// Part 6: collocated cokriging (rank_colcok)  vs  cokriging with the collocated datum appended to the data
+// =====================================================================================================
+VF_PART(p6_colcok)
+{
+  using namespace p7;
+  bool T = C.thorough();
+  Space sp;
+  sp.axis("ndim", 3).axis("layout", NLAYOUT).axis("n", T ? 3 : 2).axis("model", NMODEL2).axis("mean", NMEAN).axis("upat", 3).axis("neigh", 3).axis("colvar", 2).axis("target", 4);
+  for_each_case(C, sp, [&](uint64_t id, const std::vector<int>& idx) {
+    int ndim = idx[0] + 1, ilay = idx[1], n = T ? 4 + idx[2] : (idx[2] ? 6 : 4), im = idx[3], kmean = idx[4], upat = idx[5], kn = idx[6], cvar = idx[7], kt = idx[8];
+    int nvar = 2;
+    std::string kase = std::to_string(id);
+    int nfeq = kmean == 2 ? 1 : kmean == 3 ? 1 + ndim : 0;
+    if (n - 2 <= nfeq) { C.skip(); C.outcome("excluded:not-more-data-than-drift-equations"); return; }
+    set_ndim(ndim);
+    Raw r = make_raw(ndim, nvar, ilay, n);
+    if (upat == 1) r.z[0][1] = TEST;
+    if (upat == 2) { r.z[1][0] = TEST; r.z[0][2] = TEST; }
+    VVD t4 = targets(ndim, ilay, 4);
+    if (kt == 1) { C.skip(); C.outcome("excluded:target-coincides-with-a-datum(collocated datum not added, by design)"); return; }
+    double zc = cvar == 0 ? 1.75 : -0.5;
+    auto mkNeigh = [&]() -> ANeigh* {
+      if (kn == 0) return NeighUnique::create();
+      // moving neighbourhoods wide enough to hold all samples (+ the collocated one in the reference run)
+      return NeighMoving::create(false, kn == 1 ? 100 : n + 1, TEST, 1, 1, ITEST, VectorDouble(ndim, 1.));
+    };
+    std::string what = " ; data=" + raw_str(r) + " target#" + std::to_string(kt) + " collocated z" + std::to_string(cvar + 1) + "=" + fmt(zc) + " model=" + model_name(nvar, im) + " " + MEAN_NAME[kmean] + " neigh=" + std::to_string(kn);
+    // ---- fast path: rank_colcok. In a forked child: on the unchanged tree the LHS is built from the projected point of rank -1
+    //      (the collocated target is coded -1 in the neighbour list) = out-of-bounds read, crash or garbage
+    Res a; int ea = 0;
+    ChildResult cr = run_child([&](int wfd) {
+      DbP din(raw_to_db(r));
+      Raw t; t.ndim = ndim; t.nvar = 0; t.n = 1; t.x = VVD(ndim, VD(1)); for (int d = 0; d < ndim; d++) t.x[d][0] = t4[d][kt];
+      t.f.push_back({zc});   // the collocated value lives in an ordinary column of the target Db
+      DbP dtar(raw_to_db(t));
+      dtar->setLocator("f1", ELoc::UNKNOWN, 0);
+      ModelP m(make_model(ndim, nvar, im)); applyMean(m.get(), kmean, false);
+      std::unique_ptr<ANeigh> ng(mkNeigh());
+      VectorInt rank(nvar, -1); rank[cvar] = dtar->getUID("f1");
+      int e = kriging(din.get(), dtar.get(), m.get(), ng.get(), EKrigOpt::POINT, true, true, false, VectorInt(), rank);
+      std::string o = std::to_string(e);
+      for (int iv = 0; iv < nvar; iv++) { std::string z = "Kriging.z" + std::to_string(iv + 1); o += " " + fmt(kk::col(dtar.get(), z + ".estim")[0]) + " " + fmt(kk::col(dtar.get(), z + ".stdev")[0]); }
+      child_write(wfd, o);
+      return 0;
+    }, 10.);
+    bool crashed = !cr.clean() || cr.code != 0 || cr.data.empty();
+    if (!crashed)
+    {
+      std::stringstream ss(cr.data); ss >> ea;
+      for (int iv = 0; iv < nvar; iv++) { double e, sd; ss >> e >> sd; a.est.push_back(e); a.std.push_back(sd); }
+    }
+    // ---- reference path: the datum appended
+    Res b; int eb;
+    {
+      Raw rc = r; rc.n = n + 1;
+      for (int d = 0; d < ndim; d++) rc.x[d].push_back(t4[d][kt]);
+      rc.z[cvar].push_back(zc); rc.z[1 - cvar].push_back(TEST);
+      DbP din(raw_to_db(rc)), dtar(oneTarget(ndim, t4, kt));
+      ModelP m(make_model(ndim, nvar, im)); applyMean(m.get(), kmean, false);
+      std::unique_ptr<ANeigh> ng(mkNeigh());
+      eb = kriging(din.get(), dtar.get(), m.get(), ng.get(), EKrigOpt::POINT, true, true, false);
+      for (int iv = 0; iv < nvar; iv++) { std::string z = "Kriging.z" + std::to_string(iv + 1); b.est.push_back(col(dtar.get(), z + ".estim")[0]); b.std.push_back(col(dtar.get(), z + ".stdev")[0]); }
+    }
+    C.eval();
+    if (eb || FFFF(b.est[0]) || std::isnan(b.est[0])) { C.skip(); C.outcome("excluded:completed-system-refused-or-singular"); return; }
+    // one key for the whole fast path: what an out-of-bounds read produces (crash / garbage / refusal) is not reproducible
+    static const char* KEY = "colcok:rank_colcok-path-crashes-or-differs";
+    if (crashed) { C.outcome("colcok-path:" + cr.describe()); C.nontrivial(id); C.violation(KEY, "kriging with rank_colcok: " + cr.describe() + " ; the completed data set is kriged normally: " + resStr(b) + what, kase); return; }
+    if (ea) { C.outcome("colcok-path:refused"); C.violation(KEY, "kriging with rank_colcok returns an error where the completed data set is kriged normally" + what, kase); return; }
+    double worst = 0;
+    std::string d = cmp("estimation", a.est, b.est, false, worst);
+    if (d.empty()) d = cmp("stdev", a.std, b.std, true, worst);
+    C.outcome(std::string(kn == 0 ? "unique:" : "moving:") + (d.empty() ? decade(worst) : "DIFFERENT"));
+    C.nontrivial(id);
+    if (id % 5003 == 1) C.sample("{\"id\":" + kase + ",\"data\":" + raw_str(r) + ",\"model\":" + jstr(model_name(nvar, im)) + "}");
+    if (!d.empty()) C.violation(KEY, "collocated cokriging (rank_colcok) " + resStr(a) + " vs cokriging with the datum appended " + resStr(b) + ": " + d + what, kase);
+  });
+}
+
+// =====================================================================================================
+// Part 4c (E2): ONE Db object and ONE NeighMoving with ball search re-used along a history of steps
+//   0 attach(din, targets A)   1 attach(din, targets B)   2 move all samples in place to the other layout (same n)
+//   3 toggle value z[2] defined/undefined   4 toggle the selection of sample 0 (edit of the selection column in place)
+//   5 add a sample   6 delete the last sample   7 select(target 0)   8 select(target 2)
+//   9 kriging(din, targets A, model, THE neigh)   10 migrate(din -> targets A, flag_ball) (a second call sees the edited Db)
+// After every select / kriging / migrate the result is compared with the plain scan (fresh NeighMoving without ball, plain
+// kriging, migrate without ball) on the CURRENT content, for the targets that satisfy the property's precondition (the nmaxi
+// Euclidean-nearest samples all admissible, no tie). A bare select is judged only if the neighbourhood was (re)attached after
+// the last edit of the Db (the tree and the memo are snapshots taken by attach(); kriging() always re-attaches).
+// =====================================================================================================
+namespace p4c
+{
+struct World
+{
+  int ndim = 2, lay = 0, n = 5;
+  bool zundef = false, masked = false;
+  int attached = 0;       // 0 none, 1 targets A, 2 targets B
+  bool dirty = false;     // Db edited since the last attach
+  int lastSel = -1;
+  bool migrated = false;  // migrate(flag_ball) already called once on this Db object
+  uint64_t snap = 0;      // hash of the coordinates seen by the last attach
+  Raw raw() const
+  {
+    Raw r = make_raw(ndim, 1, lay, n);
+    r.sel = VD(n, 1.);
+    if (masked) r.sel[0] = 0;
+    if (zundef) r.z[0][2] = TEST;
+    return r;
+  }
+  uint64_t key() const { return Hash().i(lay).i(n).i(zundef).i(masked).i(attached).i(dirty).i(lastSel).i(migrated).u(snap).h; }
+};
+}  // namespace p4c
+
+VF_PART(p4_ball_history)
+{
+  using namespace p4;
+  using namespace p4c;
+  bool T = C.thorough();
+  static const char* OPN[11] = {"attach(A)", "attach(B)", "move-samples-in-place", "toggle z[2] undefined", "toggle mask of sample 0", "add sample", "delete last sample",
+                                "select(0)", "select(2)", "kriging(reused neigh)", "migrate(ball)"};
+  for (int cfg = 0; cfg < (T ? 6 : 3); cfg++)
+  {
+    int ndim = cfg % 3 + 1, nmaxi = 2 + cfg / 3, leaf = cfg % 2 ? 1 : 10;
+    // no pruning on the model key: the hidden state under test (a stale tree, a stale memo) is precisely what the intended-state
+    // key cannot see; every history up to the depth is executed
+    bfs(C, 11, T ? 5 : 4, [&](const History& h) -> StepResult {
+      set_ndim(ndim);
+      World W; W.ndim = ndim;
+      DbP din(raw_to_db(W.raw()));
+      Raw ta; ta.ndim = ndim; ta.nvar = 0; ta.n = 4; ta.x = targets(ndim, 0, 4);
+      Raw tb; tb.ndim = ndim; tb.nvar = 0; tb.n = 4; tb.x = targets(ndim, 1, 5); for (auto& c : tb.x) c.erase(c.begin());   // other points (targets 1..4 of layout 1)
+      DbP dA(raw_to_db(ta)), dB(raw_to_db(tb));
+      std::unique_ptr<NeighMoving> ball(NeighMoving::create(false, nmaxi, TEST));
+      ball->setBallSearch(true, leaf);
+      // the ball branch of NeighMoving::_moving is taken only for an isotropic search without sectors: check it (non-vacuity)
+      if (!(ball->_useBallSearch && !ball->getFlagSector() && !ball->getFlagAniso())) { C.violation("harness:ball-branch-not-taken", "harness self-check: the ball search is disabled for this neighbourhood", hist_str(h)); }
+      StepResult R;
+      std::string hs; for (int op : h) hs += std::string(hs.empty() ? "" : " ; ") + OPN[op];
+      auto admissibleTarget = [&](const Raw& cur, const VVD& tx, int it, std::vector<int>* expected) {
+        std::vector<std::pair<double, int>> byd;
+        for (int i = 0; i < cur.n; i++) byd.push_back({d2(cur.x, i, tx, it), i});
+        std::sort(byd.begin(), byd.end());
+        int k = std::min(nmaxi, cur.n);
+        for (int j = 0; j < k; j++) { int i = byd[j].second; if (cur.sel[i] <= 0 || FFFF(cur.z[0][i])) return false; }
+        if (k < cur.n && byd[k - 1].first == byd[k].first) return false;
+        if (expected) { expected->clear(); for (int j = 0; j < k; j++) expected->push_back(byd[j].second); std::sort(expected->begin(), expected->end()); }
+        return true;
+      };
+      for (size_t step = 0; step < h.size(); step++)
+      {
+        int op = h[step];
+        bool last = step + 1 == h.size();
+        Raw cur = W.raw();
+        switch (op)
+        {
+          case 0: case 1:
+            ball->attach(din.get(), op == 0 ? dA.get() : dB.get());
+            W.attached = op + 1; W.dirty = false; W.lastSel = -1; W.snap = Hash().i(W.lay).i(W.n).h;
+            break;
+          case 2:
+          {
+            W.lay = 1 - W.lay;
+            VVD x = layout(ndim, W.lay, W.n);
+            for (int i = 0; i < W.n; i++) for (int d = 0; d < ndim; d++) din->setCoordinate(i, d, x[d][i]);
+            W.dirty = true;
+            break;
+          }
+          case 3: W.zundef = !W.zundef; din->setLocVariable(ELoc::Z, 2, 0, W.zundef ? TEST : values(0, 6)[2]); W.dirty = true; break;
+          case 4: W.masked = !W.masked; din->setValue("sel", 0, W.masked ? 0. : 1.); W.dirty = true; break;
+          case 5:
+          {
+            if (W.n >= 6) { R.enabled = false; R.expand = false; R.key = W.key(); return R; }
+            int i = din->addSamples(1, 0.);
+            VVD x = layout(ndim, W.lay, W.n + 1);
+            for (int d = 0; d < ndim; d++) din->setCoordinate(W.n, d, x[d][W.n]);
+            din->setLocVariable(ELoc::Z, W.n, 0, values(0, 6)[W.n]);
+            din->setValue("sel", W.n, 1.);
+            (void)i;
+            W.n++; W.dirty = true;
+            break;
+          }
+          case 6:
+            if (W.n <= 4) { R.enabled = false; R.expand = false; R.key = W.key(); return R; }
+            din->deleteSamples(VectorInt({W.n - 1}));
+            W.n--; W.dirty = true;
+            break;
+          case 7: case 8:
+          {
+            if (W.attached == 0) { R.enabled = false; R.expand = false; R.key = W.key(); return R; }
+            int it = op == 7 ? 0 : 2;
+            VectorInt rb;
+            if (W.dirty)
+            {  // the object is in a state the library does not define (stale snapshot): do not call into it with a changed sample count
+              if (last) C.outcome("select:not-judged(Db edited since attach)");
+              R.enabled = false; R.expand = false; R.key = W.key(); return R;
+            }
+            ball->select(it, rb);
+            W.lastSel = it;
+            if (!last) break;
+            const VVD& tx = W.attached == 1 ? ta.x : tb.x;
+            std::vector<int> exp;
+            if (!admissibleTarget(cur, tx, it, &exp)) { C.outcome("select:excluded(precondition: nearest not all admissible / tie)"); break; }
+            std::unique_ptr<NeighMoving> plain(NeighMoving::create(false, nmaxi, TEST));
+            plain->attach(din.get(), W.attached == 1 ? dA.get() : dB.get());
+            VectorInt ra; plain->select(it, ra);
+            std::vector<int> va(ra.begin(), ra.end()), vb(rb.begin(), rb.end());
+            std::sort(va.begin(), va.end()); std::sort(vb.begin(), vb.end());
+            bool same = va == vb;
+            bool edited = false; for (size_t q = 0; q < step; q++) if (h[q] >= 2 && h[q] <= 6) edited = true;
+            C.outcome(std::string("select:") + (same ? "same" : "DIFFERENT") + (edited ? ":after-in-place-edit+reattach" : ":pristine"));
+            if (edited) C.nontrivial(Hash().i(cfg).vi(h).h);
+            if (!same) C.violation(edited ? "ball-reuse:select-after-edit-and-reattach" : "ball-reuse:select", "history [" + hs + "] (ndim=" + std::to_string(ndim) + " nmaxi=" + std::to_string(nmaxi) + " leaf=" + std::to_string(leaf) +
+                                   "): re-used ball search selects " + vstr(vb) + ", plain scan on the current Db " + vstr(va) + ", nearest admissible " + vstr(exp) + " ; current data=" + raw_str(cur), hist_str(h));
+            break;
+          }
+          case 9:
+          {
+            ModelP m(make_model(ndim, 1, 1));
+            int eb = kriging(din.get(), dA.get(), m.get(), ball.get(), EKrigOpt::POINT, true, true, false);
+            VD e1 = kk::col(dA.get(), "Kriging.z1.estim"), s1 = kk::col(dA.get(), "Kriging.z1.stdev");
+            dA->deleteColumns(VectorString({"Kriging.*"}));
+            W.attached = 1; W.dirty = false; W.lastSel = 3; W.snap = Hash().i(W.lay).i(W.n).h;
+            if (!last) break;
+            std::unique_ptr<NeighMoving> plain(NeighMoving::create(false, nmaxi, TEST));
+            ModelP m2(make_model(ndim, 1, 1));
+            DbP dA2(raw_to_db(ta));
+            int ep = kriging(din.get(), dA2.get(), m2.get(), plain.get(), EKrigOpt::POINT, true, true, false);
+            VD e2 = kk::col(dA2.get(), "Kriging.z1.estim"), s2 = kk::col(dA2.get(), "Kriging.z1.stdev");
+            bool edited = false; for (size_t q = 0; q < step; q++) if (h[q] >= 2 && h[q] <= 6) edited = true;
+            std::string d;
+            if (eb != ep) d = "return codes " + std::to_string(eb) + " vs " + std::to_string(ep);
+            if (eb == 0 && ep == 0 && (std::isnan(e1[0]) || std::isnan(e2[0]))) { C.violation("harness:kriging-output-not-found", "harness self-check: kriging produced no Kriging.z1.estim column", hist_str(h)); break; }
+            int judged = 0;
+            for (int it = 0; it < 4 && d.empty(); it++)
+            {
+              if (!admissibleTarget(cur, ta.x, it, nullptr)) continue;
+              judged++;
+              bool u1 = FFFF(e1[it]) || std::isnan(e1[it]), u2 = FFFF(e2[it]) || std::isnan(e2[it]);
+              if (u1 != u2 || (!u1 && (!close(e1[it], e2[it], 1e-9, 1.) || !close(s1[it] * s1[it], s2[it] * s2[it], 1e-9, 1.))))
+                d = "target " + std::to_string(it) + ": est/std " + fmt(e1[it]) + "/" + fmt(s1[it]) + " (re-used ball neighbourhood) vs " + fmt(e2[it]) + "/" + fmt(s2[it]) + " (fresh plain neighbourhood)";
+            }
+            C.outcome(std::string("kriging:") + (d.empty() ? (judged ? "same" : "no-target-satisfies-precondition") : "DIFFERENT") + (edited ? ":after-in-place-edit" : ":pristine"));
+            if (edited && judged) C.nontrivial(Hash().i(cfg).vi(h).h);
+            if (!d.empty()) C.violation(edited ? "ball-reuse:kriging-after-edit" : "ball-reuse:kriging", "history [" + hs + "] (ndim=" + std::to_string(ndim) + " nmaxi=" + std::to_string(nmaxi) + " leaf=" + std::to_string(leaf) + "): " + d +
+                                        " ; current data=" + raw_str(cur), hist_str(h));
+            break;
+          }
+          case 10:
+          {
+            auto lastCol = [](Db* d, int ncolBefore) { VD v(d->getSampleNumber(), std::nan("")); int nc = d->getColumnNumber(); if (nc > ncolBefore) for (int i = 0; i < d->getSampleNumber(); i++) v[i] = d->getValueByColIdx(i, nc - 1); return v; };
+            int nc0 = dA->getColumnNumber();
+            int e1 = migrate(din.get(), dA.get(), "z1", 1, VectorDouble(), false, false, true);
+            VD v1 = lastCol(dA.get(), nc0);
+            while (dA->getColumnNumber() > nc0) dA->deleteColumnByColIdx(dA->getColumnNumber() - 1);
+            W.migrated = true;
+            if (!last) break;
+            DbP dA2(raw_to_db(ta));
+            int e2 = migrate(din.get(), dA2.get(), "z1", 1, VectorDouble(), false, false, false);
+            VD v2 = lastCol(dA2.get(), nc0);
+            if (e1 == 0 && e2 == 0 && (std::isnan(v1[0]) || std::isnan(v2[0]))) { C.violation("harness:migrate-output-not-found", "harness self-check: migrate produced no new column", hist_str(h)); break; }
+            bool edited = false; for (size_t q = 0; q < step; q++) if (h[q] >= 2 && h[q] <= 6) edited = true;
+            bool again = false; for (size_t q = 0; q < step; q++) if (h[q] == 10) again = true;
+            std::string d;
+            if (e1 != e2) d = "return codes " + std::to_string(e1) + " vs " + std::to_string(e2);
+            for (int it = 0; it < 4 && d.empty(); it++)
+            {
+              // tie exclusion among all samples
+              std::vector<double> ds; for (int i = 0; i < cur.n; i++) ds.push_back(d2(cur.x, i, ta.x, it));
+              std::sort(ds.begin(), ds.end());
+              bool tie = false; for (size_t q = 1; q < ds.size(); q++) if (ds[q] == ds[q - 1]) tie = true;
+              if (tie) continue;
+              bool same = (FFFF(v1[it]) && FFFF(v2[it])) || v1[it] == v2[it];
+              if (!same) d = "target " + std::to_string(it) + ": " + fmt(v1[it]) + " (ball) vs " + fmt(v2[it]) + " (exhaustive)";
+            }
+            if (C.verbose) fprintf(stderr, "  [%s] migrate ball=%s exhaustive=%s data=%s\n", hs.c_str(), vstr(v1).c_str(), vstr(v2).c_str(), raw_str(cur).c_str());
+            C.outcome(std::string("migrate:") + (d.empty() ? "same" : "DIFFERENT") + (edited && again ? ":second-call-after-edit" : edited ? ":after-edit" : ":pristine"));
+            if (edited && again) C.nontrivial(Hash().i(cfg).vi(h).h);
+            if (!d.empty()) C.violation(edited ? "ball-reuse:migrate-after-edit" : "ball-reuse:migrate", "history [" + hs + "] (ndim=" + std::to_string(ndim) + "): " + d + " ; current data=" + raw_str(cur), hist_str(h));
+            break;
+          }
+        }
+      }
+      R.key = Hash().i(cfg).u(W.key()).h;
+      return R;
+    }, false);
+  }
 }
 
 // ---- history: the same comparison when the model object has served other requests before (E2 over request sequences).
